@@ -54,7 +54,10 @@ def run(o, ctx, tier, seed, replay=None):
         base = r.randrange(0, END - 100)
         seq, cur = [], base
         for _ in range(r.choice([1, 2, 3, 5, 9])):
-            cur += r.choice([0, 0, 0, 1, 1, 2, -1, 5, 86400])
+            # small steps, steps back, and gaps of a day and more (a worker thread idle for long, a stepped clock) whose
+            # second-of-day moves forward, backward or not at all
+            cur += r.choice([0, 0, 0, 1, 1, 2, -1, 5, 86400, 86401, 86399, 90000, 172800 + r.randrange(86400), 31 * 86400 + r.randrange(3600),
+                             366 * 86400 + r.randrange(86400), 36525 * 86400 + 7, -86400 + 3, -90000, r.randrange(0, 10 ** 9)])
             cur = min(max(cur, 0), END - 1)
             seq.append(cur)
         cl.append("DATECACHE " + ",".join(map(str, seq)))
@@ -81,7 +84,7 @@ def oracle(case, impl, model):
 
 register("C18", lean=["Khttp.Props.C18"], run=run,
          rule="DATE cases: fixed boundary instants; first/last second of every month of every year 1970-9999 (thorough; quick: 1970-2109, 2390-2409, 9990-9999 and 300 random years); "
-              "20k (quick) / 400k (thorough) random days x seconds {0,1,59,60,3599,3600,86399,random}; DATECACHE: 300/5000 scripted clock-reading sequences (equal, +1, +2, backwards, day jumps) "
+              "20k (quick) / 400k (thorough) random days x seconds {0,1,59,60,3599,3600,86399,random}; DATECACHE: 300/5000 scripted clock-reading sequences (equal, +1, +2, backwards, gaps of one day and more with the second-of-day moving either way, month/year/century gaps) "
               "through an interposed clock_gettime on a fresh thread. distinct_nontrivial = all distinct case lines (every instant is a distinct calendar computation).",
          assumptions=["0 <= secs < 253402300800 (years 1970..9999)", "the kernel's CLOCK_REALTIME_COARSE lags the wall clock by at most one tick: outside the model",
                       "i64 arithmetic modelled on unbounded Int (no intermediate exceeds i64 for any i64 input: stated in the model)"],
